@@ -24,7 +24,7 @@ MEMBER_TYPES = [
     ("uuid", {"type": "string", "format": "uuid"}, "other", "str"),
 ]
 DEFAULTS = {
-    "str": ["hello", "", "a \"q\" b", "12"],
+    "str": ["hello", "", "a \"q\" b", "12", ", ", "  ", " lead", "trail ", "\r\n", "\ttab\t"],
     "int": [7, 0, -3, 2147483648, "12", "-5"],
     "uint": [7, 0, 4294967295, 4294967296, 9223372036854775808, 18446744073709551615, -1, "12"],
     "num": [1.5, 2, -0.25],
@@ -148,6 +148,47 @@ def twin_defaults_part(viol):
         if got != w:
             viol.append(({"twin": True, "spec": spec}, f"inline objects of the same shape with different defaults: decoding empty members yields {json.dumps(got)}, the schemas' defaults are {json.dumps(w)}"))
     return 2
+
+
+def reserved_builder_part(viol):
+    """members named like bon's own builder methods (`build`, `builder`) that carry a const / single value / default: the
+    builder that does not set them still yields the declared values"""
+    spec = {"openapi": "3.1.0", "info": {"title": "t", "version": "1"}, "paths": {}, "components": {"schemas": {"Manifest": {"type": "object", "required": ["builder", "build"], "properties": {
+        "builder": {"type": "string", "enum": ["buildkit"]}, "build": {"type": "integer", "const": 2}, "label": {"type": "string"}}}}}}
+    d = vlib.scratch("C17b")
+    sp = os.path.join(d, "spec.json")
+    json.dump(spec, open(sp, "w"))
+    outp = os.path.join(d, "out.rs")
+    rc, txt = vlib.oas(["generate", "types", "-i", sp, "-o", outp, "-q", "--all-schemas", "--no-helpers", "--enable-builders"])
+    if rc != 0:
+        viol.append(({"reserved_builder": True}, f"reserved-name builder spec: generation failed {txt[-200:]}"))
+        return 0
+    ar = arena.Arena("C17b")
+    ar.add_case(0, outp)
+    ar.write_main('''fn main() {
+    let m = case_0::Manifest::builder().build();
+    println!("{}", serde_json::to_string(&m).unwrap());
+    println!("{}", serde_json::to_string(&case_0::Manifest::default()).unwrap());
+    let d: case_0::Manifest = serde_json::from_str("{}").unwrap_or_default();
+    println!("{}", serde_json::to_string(&d).unwrap());
+}
+''')
+    ok, diags, err = ar.cargo("build")
+    if not ok:
+        viol.append(({"reserved_builder": True, "spec": spec}, f"members named build / builder with declared values: a builder that leaves them unset does not compile: {(diags[0]['message'] if diags else err)[:300]}"))
+        return 0
+    rc, out_, errp = ar.run("")
+    want = {"build": 2, "builder": "buildkit"}      # (optional members with defaults: the recorded builder-ignores-defaults class)
+    n = 0
+    for how, line in zip(("builder", "Default", "decode of {}"), out_.strip().split("\n") + [""] * 3):
+        n += 1
+        try:
+            got = json.loads(line)
+        except Exception:
+            got = line
+        if got != want:
+            viol.append(({"reserved_builder": True, "spec": spec}, f"members named build / builder: {how} yields {json.dumps(got)}, the declared values are {json.dumps(want)}"))
+    return n
 
 
 def param_defaults_part(viol):
@@ -330,6 +371,7 @@ fn main() {
     n_twin = twin_defaults_part(viol)
     # ---- parameters with defaults (query / header structs of a request, client and server side)
     n_par = param_defaults_part(viol)
+    n_par += reserved_builder_part(viol)
     res.counts.update({"evaluations": len(cases), "twin_default_observations": n_twin, "parameter_default_observations": n_par, "distinct_nontrivial": n_obs, "traces_validated_against_impl": len(cases),
                        "exhaustive": True,
                        "rule": "exhaustive over 13 member types (incl. uint32 / uint64 with defaults up to 2^64-1) x default values of every JSON type (matching, string-encoded, null) x {required, optional} x {builders on, off} (+ const and single-value enum members, required and optional; int8 overflow): #[default(..)] expression read back with syn vs the extracted coercion model; every case compiled in the arena and observed three ways: decode of {} , T::default(), T::builder().build(); plus twin inline objects with different defaults and the Default / encoding of a request's query and header parameter structs (required and optional parameters with default / const / single-value enum)"})
